@@ -81,6 +81,7 @@ def run(prog, tier, extra=None):
     R2 = res.rule("C17.verify-before-mark", "marking is dominated by the true edge of verify(challenge_for_peer, response.signature, response.public_key)", floor=2)
     R4 = res.rule("C17.disconnect-clears-challenge", "disconnecting a peer always clears its outstanding challenge", floor=1)
     R3 = res.rule("C17.once", "a used challenge is cleared on every Ok path; issued challenges are fresh random bytes", floor=3)
+    R5 = res.rule("C17.index-paired", "a peer record leaves index_to_peers only together with its address_to_peers entry, and is inserted only at a free index", floor=3)
 
     marks = mark_sites(prog)
     for (b, bb, kind, e) in marks:
@@ -214,6 +215,59 @@ def run(prog, tier, extra=None):
                         "stays valid for a response replayed on the next connection of the same peer object", md.loc((p or [0])[-1])))
     else:
         res.sample({"rule": R4, "cleared_at": [md.loc(x) for x in clears], "verdict": "every path clears the outstanding challenge"})
+
+    # R5: address_to_peers[K] = i says "connection i proved K". That stays true only if the record at index i is never removed or
+    # replaced while the key entry stays behind: (a) every removal from index_to_peers is followed by a removal from
+    # address_to_peers, (b) every insert into index_to_peers is at a fresh index (PeerCounter::get_next_index) or control-dependent
+    # on a lookup of that table (the "not present" branch)
+    LOOKUPS = ("contains_key", "get", "get_mut", "find_peer_by_index", "find_peer_by_index_mut")
+    for b in prog.all_bodies():
+        if "::tests::" in b.path or "/test/" in b.file or b.unit.crate not in ("saito_core", "saito_rust", "saito_spammer", "saito_wasm"):
+            continue
+        # membership changes only: methods of the map itself (a `&mut Peer` obtained through get_mut / iter_mut changes a record, not the table)
+        def table_level(x):
+            return x[0] == "assign" or (x[0] == "call" and x[2].rsplit("::", 1)[0] in ("std::collections::HashMap", "ahash::AHashMap", "std::collections::hash_map::Entry"))
+        isites = [x for x in fa.sites(b, "PeerCollection", "index_to_peers") if x[3] in ("insert", "remove", "replace", "unknown") and table_level(x)]
+        if not isites:
+            continue
+        arem = [x[1] for x in fa.sites(b, "PeerCollection", "address_to_peers") if x[3] == "remove" and table_level(x)]
+        chb = Chaser(b)
+        name = b.path.replace("::{closure#0}", "").split("::", 3)[-1]
+        for x in isites:
+            res.instance(R5)
+            bb = x[1]
+            if x[3] in ("remove", "replace", "unknown"):
+                after = b.reachable(bb)
+                if not any(a in after for a in arem):
+                    res.add(Finding(R5, "C17.index-paired|%s|remove" % b.path,
+                                    "%s removes a peer record from index_to_peers without removing its address_to_peers entry: the next connection at that "
+                                    "index is listed under a key it never proved" % name, b.loc(bb)))
+                else:
+                    res.sample({"rule": R5, "site": b.loc(bb), "kind": "remove", "verdict": "followed by address_to_peers.remove"})
+                continue
+            fresh = any((call_name(t) or "").endswith("PeerCounter::get_next_index") for _, t in b.calls())
+            parent = prog.bodies.get(b.parent) if b.parent else None
+            if parent is not None and b.kind == "Closure":
+                fresh = fresh or any((call_name(t) or "").endswith("PeerCounter::get_next_index") for _, t in parent.calls())
+            guarded = False
+            for sb, blk in enumerate(b.blocks):
+                t = blk["t"]
+                if t["k"] != "switch" or not b.dominates(sb, bb) or sb == bb:
+                    continue
+                e = chb.origin(t["discr"])
+                looks = [y for y in walk(e) if y[0] in ("call", "via") and y[1].rsplit("::", 1)[-1] in LOOKUPS
+                         and (has_field(y, "PeerCollection", "index_to_peers") or "PeerCollection" in y[1])]
+                if not looks:
+                    continue
+                succs = b.succ(sb)
+                if any(bb not in b.reachable(s2) for s2 in succs):
+                    guarded = True
+            if fresh or guarded:
+                res.sample({"rule": R5, "site": b.loc(bb), "kind": "insert", "verdict": "fresh index" if fresh else "control-dependent on a lookup of index_to_peers"})
+            else:
+                res.add(Finding(R5, "C17.index-paired|%s|insert" % b.path,
+                                "%s inserts a peer record into index_to_peers without a fresh index or a lookup deciding that the index is free: an authenticated "
+                                "record can be replaced while its key entry stays" % name, b.loc(bb)))
 
     res.explanation = (
         "Decides the shape-level part of authentication: who may mark a peer connected / record its key / index it by key, that in the one handler that does, both "
